@@ -99,6 +99,23 @@ def lake_build(targets=("LouModel", "LouProofs", "loumodel")):
     return _lean_built[key]
 
 
+def built_proof_modules():
+    """the modules under lean/LouProofs that build on their own right now"""
+    mods = []
+    root = os.path.join(LEAN, "LouProofs")
+    for dp, dn, fn in os.walk(root):
+        for f in sorted(fn):
+            if f.endswith(".lean"):
+                rel = os.path.relpath(os.path.join(dp, f), LEAN)[:-5]
+                mods.append(rel.replace(os.sep, "."))
+    good = []
+    for m in sorted(mods):
+        r = sh(["lake", "build", m], cwd=LEAN)
+        if r.returncode == 0:
+            good.append(m)
+    return good
+
+
 def model_exe():
     return os.path.join(LEAN, ".lake", "build", "bin", "loumodel")
 
@@ -551,11 +568,25 @@ def lean_obligations(v, theorems, extra_build_targets=()):
     except Exception as e:  # extractor could not find something: a broken tie
         v.obligation("extract:Gen regenerated from /repo", False, repr(e))
     ok, out = lake_build()
-    v.obligation("lake build LouModel LouProofs loumodel", ok, out[-3000:])
+    imports = ("LouProofs",)
+    if not ok:
+        # some module of the library fails.  A property is affected only if the model (and its driver) or a module
+        # that provides one of ITS theorems fails: build the proof modules one by one and audit against those that build
+        okm, outm = lake_build(("LouModel", "loumodel"))
+        mods = built_proof_modules() if okm else []
+        failed = re.findall(r"(?m)^- (\S+)$", out)
+        imports = tuple(mods)
+        res, raw = audit_theorems(theorems, imports=imports) if mods else ({}, "")
+        missing = [n for n in theorems if res.get(n) is None]
+        ok = okm and not missing
+        v.obligation("lake build LouModel loumodel and the proof modules of this property (other failing modules: %s)" % ",".join(failed),
+                     ok, (outm if not okm else "theorems without a building module: %s\n" % missing) + out[-2500:])
+    else:
+        v.obligation("lake build LouModel LouProofs loumodel", ok, out[-3000:])
     hits = grep_forbidden()
     v.obligation("no sorry/admit/axiom/native_decide/bv_decide/implemented_by/unsafe in sources", not hits, "; ".join(hits))
     if ok:
-        res, raw = audit_theorems(theorems)
+        res, raw = audit_theorems(theorems, imports=imports)
         for n in theorems:
             ax = res.get(n)
             v.axioms[n] = ax
